@@ -1,9 +1,21 @@
 ENGINES = [
     {"name": "venv (E3)", "path": "/verif/engine/venv", "serves_properties": ["C01"], "kind_free_text": "scripted crypto/rand.Reader + seeded CPRNG: every random draw is a choice point; executions with 0,1,2 deviations (min/max/short/error) are enumerated"},
-    {"name": "vkit (E2)", "path": "/verif/engine/vkit", "serves_properties": ["C01", "C15", "C19"], "kind_free_text": "bounded exhaustive enumeration of inputs/alterations with stable case indices, sharding and measured coverage"},
+    {"name": "vkit (E2)", "path": "/verif/engine/vkit", "serves_properties": ["C01", "C02", "C03", "C15", "C19"], "kind_free_text": "bounded exhaustive enumeration of inputs/alterations with stable case indices, sharding and measured coverage"},
 ]
 NOT_BUILT_REASON = {}
 META = {
+    "C02": {
+        "engine": "vkit (E2)",
+        "technique": "exhaustive neighbour enumeration around honest (session, proof list) pairs: accepted iff unchanged",
+        "text": "For every composition of 1..4 builders of all five kinds over one or two keys and both session kinds, the honest list is verified against every neighbour session tuple (bit flips of context/nonce, +-1, 0, negation, swaps, flag, key permutations/substitutions/drops) and every list transformation (permutation, sub-list, duplication, splice with another session's proofs, empty list); single proofs also through ProofD.Verify/ProofU.Verify.",
+        "note": "Trusted: SHA-256 collision resistance. Quick uses a bit stride of 4 (toy) / 32 (1024-bit); thorough flips every bit on toy keys.",
+    },
+    "C03": {
+        "engine": "vkit (E2)",
+        "technique": "exhaustive enumeration of builder lists x secret assignments x label partitions x adversarial equalisers against a one-secret-per-label reference model",
+        "text": "All lists of 2..4 builders, all assignments of three secrets (two of them differing by 1), all labellings (nil and every set partition) are built honestly with the shared randomiser and verified; every equaliser of the menu (overwritten response, difference carried in m_user_responses[0], attribute 0 disclosed or split) is applied to every non-first member. Acceptance with two secrets in one label class is a violation.",
+        "note": "Adversary class: holders pooling all secrets but not knowing ord(QR_n). Soundness only; honest completeness is reported as vacuity here and owned by C02/C04/C14.",
+    },
     "C19": {
         "engine": "vkit (E2)",
         "technique": "exhaustive enumeration of small operand domains against brute-force references; scripted-reader enumeration of every candidate byte string for the prime generators",
